@@ -29,6 +29,8 @@ ForeignEv(e) ==
     ELSE IF k1.tag # kf.tag THEN "C08.fields"
     ELSE IF Norm(k1.tag, k1.body) # Norm(kf.tag, kf.body) THEN "C08.fields"
     ELSE IF "objsubs" \in DOMAIN e /\ kf.tag = 2 /\ SigFields(kf.body).ok /\ ~ObjSubsOK(e.objsubs, SigFields(kf.body)) THEN "C08.fields"
+    ELSE IF "objmpis" \in DOMAIN e /\ kf.tag = 1 /\ PkeskFields(kf.body).ok /\ PkeskFields(kf.body).pk \in {1, 2, 16, 20}
+            /\ e.objmpis # MpiMags(PkeskFields(kf.body).rest, 1, IF PkeskFields(kf.body).pk \in {1, 2} THEN 1 ELSE 2, <<>>).mags THEN "C08.fields"
     ELSE IF ~e.reparsed THEN "C08.idempotent"
     ELSE IF e.o2 # e.o1 THEN "C08.idempotent"
     ELSE "ok"
